@@ -9,6 +9,7 @@
 #include "kit/num.h"
 #include <dsplib.h>
 #include <thread>
+#include <unistd.h>
 #include <set>
 
 namespace dsplib { namespace verif {
@@ -22,9 +23,9 @@ using namespace dsplib;
 
 namespace {
 
-enum Kind { K_FFT = 0, K_IFFT = 1, K_PLAN_C = 2, K_RFFT = 3, K_IRFFT = 4, K_PLAN_R = 5, K_USE_C = 6, K_USE_R = 7, K_FFT_REAL = 8, K_PLAN_IC = 9, K_PLAN_IR = 10, K_USE_IC = 11, K_USE_IR = 12, K_CZT = 13, K_XCORR = 14, K_HILBERT = 15, K_NKINDS = 16 };
+enum Kind { K_FFT = 0, K_IFFT = 1, K_PLAN_C = 2, K_RFFT = 3, K_IRFFT = 4, K_PLAN_R = 5, K_USE_C = 6, K_USE_R = 7, K_FFT_REAL = 8, K_PLAN_IC = 9, K_PLAN_IR = 10, K_USE_IC = 11, K_USE_IR = 12, K_CZT = 13, K_XCORR = 14, K_HILBERT = 15, K_NKINDS = 16, K_REFUSED = 16, K_NKINDS2 = 17 };
 const char* kind_name(int k) {
-    static const char* n[] = {"fft", "ifft", "FftPlan", "rfft", "irfft", "FftPlanR", "use-stored-FftPlan", "use-stored-FftPlanR", "fft(real)", "IfftPlan", "IfftPlanR", "use-stored-IfftPlan", "use-stored-IfftPlanR", "czt", "xcorr", "hilbert"};
+    static const char* n[] = {"fft", "ifft", "FftPlan", "rfft", "irfft", "FftPlanR", "use-stored-FftPlan", "use-stored-FftPlanR", "fft(real)", "IfftPlan", "IfftPlanR", "use-stored-IfftPlan", "use-stored-IfftPlanR", "czt", "xcorr", "hilbert", "refused-request"};
     return n[k];
 }
 inline int code(int kind, int len) { return kind * 100000 + len; }
@@ -83,6 +84,19 @@ std::vector<uint64_t> perform(int kind, int n, Stored& st, int arg) {
     case K_CZT: { const int m = (n % 3 == 0) ? n : std::max(1, n / 4); return bits(czt(cx_input(n), m, expj(-2 * pi * 0.8 / n), (n % 2) ? cmplx_t(1) : cmplx_t(0.9, 0.2))); }
     case K_XCORR: return bits(xcorr(re_input(n), re_input(n / 2 + 1)));
     case K_HILBERT: return bits(hilbert(re_input(n)));
+    // a request the library refuses (caught by the caller): the thread's caches must be as before and keep working as before
+    case K_REFUSED: {
+        uint64_t threw = 0;
+        try {
+            switch (n % 4) {
+            case 0: (void)fft(arr_cmplx()); break;
+            case 1: (void)irfft(cx_input(n / 2 + 1), n | 1); break;          // odd length
+            case 2: { FftPlan p(0); (void)p; break; }
+            default: { FftPlanR p(n | 1); (void)p(re_input((n | 1) + 2)); break; }   // plan applied to an input of another length
+            }
+        } catch (const std::exception&) { threw = 1; }
+        return {0xBADull, threw};
+    }
     }
     return {};
 }
@@ -150,7 +164,7 @@ struct HistResult
 {
     bool failed{false};
     std::string sig, msg;
-    int evictions{0}, rerequests{0}, stored_after_evict{0};
+    int evictions{0}, rerequests{0}, stored_after_evict{0}, refused{0};
 };
 
 HistResult run_history(const std::vector<int>& h) {
@@ -182,7 +196,11 @@ HistResult run_history(const std::vector<int>& h) {
             }
             // (2) LRU model
             std::string e1, e2;
-            if (kind == K_CZT || kind == K_XCORR || kind == K_HILBERT) {
+            if (kind == K_REFUSED) {
+                R.refused++;
+                if (n % 4 == 3) { e2 = lru_invariants(Ar, cap); e1 = lru_invariants(Ac, cap); }   // the plan itself was a valid request
+                else if (Ac != Bc || Ar != Br) e1 = "a refused request changed the caches: complex " + show(Bc) + " -> " + show(Ac) + ", real " + show(Br) + " -> " + show(Ar);
+            } else if (kind == K_CZT || kind == K_XCORR || kind == K_HILBERT) {
                 // several internal requests: only the invariants are asserted (capacity, no duplicates), plus the result above
                 e1 = lru_invariants(Ac, cap);
                 e2 = lru_invariants(Ar, cap);
@@ -335,7 +353,7 @@ static void lng_check(const Json& c, Out& o) {
     std::vector<int> h;
     const int npool = c.geti("npool");
     for (int i = 0; i < len; ++i) {
-        int kind = r.range(0, int(K_NKINDS) - 1);
+        int kind = r.range(0, int(c.geti("v", 1) >= 2 ? K_NKINDS2 : K_NKINDS) - 1);
         int n = pool[r.range(0, npool - 1)];
         if (kind == K_USE_C || kind == K_USE_R || kind == K_USE_IC || kind == K_USE_IR) n = r.range(0, 63);
         if (kind == K_IRFFT || kind == K_PLAN_IR) n = 2 * n;
@@ -350,12 +368,135 @@ static void lng_check(const Json& c, Out& o) {
     o.evals = len;
     if (res.evictions > 0 && (res.rerequests > 0 || res.stored_after_evict > 0)) o.nontrivial(key_of(c.getu("seed"), len, npool));
     o.label(res.stored_after_evict > 0 ? "stored-plan-used-after-eviction" : "no-stored-plan-after-eviction");
+    if (res.refused > 0) o.label("refused-requests-in-history");
     o.label(fmt("capacity:%d", verif::fft_cache_capacity()));
 }
 static void lng_gen(Ctx& ctx) {
     ctx.rc("random", ctx.by_tier(3000, 30000), [&]() {
-        return Json::object().set("len", pick_log(1, ctx.by_tier(600, 10000))).set("npool", pick(2, 40)).set("seed", (long long)seed64());
+        return Json::object().set("v", 2).set("len", pick_log(1, ctx.by_tier(600, 10000))).set("npool", pick(2, 40)).set("seed", (long long)seed64());
     });
 }
 
-VK_MAIN("C10")
+
+// ------------------------------------------------------------------------------------------- pristine-process oracle
+// The fresh-thread reference above shares the PROCESS with the history, so state that is (wrongly) process-wide - a
+// function-local static initialised by the first length that reaches it, a table keyed too coarsely - contaminates both sides
+// alike.  Here the reference is the same single call made as the first library call of a NEW process (this binary re-executed
+// with --pristine), and the history itself also runs in a new process, so a case is a pure function of its request list.
+namespace {
+uint64_t hash_bits(const std::vector<uint64_t>& b) { uint64_t h = 0xF5; for (auto u : b) h = mix(h, u); return mix(h, uint64_t(b.size())); }
+
+// child side: run the requests given on the command line, print "<hash> <effective kind> <effective n>" per step
+int pristine_main(int argc, char** argv) {
+    Stored st;
+    for (int i = 2; i < argc; ++i) {
+        const int c = atoi(argv[i]);
+        const int kind = kind_of(c), n = len_of(c);
+        int eff_kind = kind, eff_n = n;
+        if (kind == K_USE_C) { if (st.c.empty()) { printf("SKIP 0 0\n"); continue; } eff_kind = K_PLAN_C; eff_n = st.c[size_t(n) % st.c.size()].first; }
+        if (kind == K_USE_R) { if (st.r.empty()) { printf("SKIP 0 0\n"); continue; } eff_kind = K_PLAN_R; eff_n = st.r[size_t(n) % st.r.size()].first; }
+        if (kind == K_USE_IC) { if (st.ic.empty()) { printf("SKIP 0 0\n"); continue; } eff_kind = K_PLAN_IC; eff_n = st.ic[size_t(n) % st.ic.size()].first; }
+        if (kind == K_USE_IR) { if (st.ir.empty()) { printf("SKIP 0 0\n"); continue; } eff_kind = K_PLAN_IR; eff_n = st.ir[size_t(n) % st.ir.size()].first; }
+        try {
+            auto b = perform(kind, n, st, n);
+            printf("%016llx %d %d\n", (unsigned long long)hash_bits(b), eff_kind, eff_n);
+        } catch (const std::exception& e) { printf("EXC %d %d %s\n", eff_kind, eff_n, e.what()); }
+    }
+    fflush(stdout);
+    return 0;
+}
+
+struct PStep { std::string hash; int kind{0}, n{0}; };
+// parent side: never touches the library
+bool run_pristine(const std::vector<int>& codes, std::vector<PStep>& out, std::string& err) {
+    char self[4096];
+    ssize_t k = readlink("/proc/self/exe", self, sizeof(self) - 1);
+    if (k <= 0) { err = "readlink(/proc/self/exe) failed"; return false; }
+    self[k] = 0;
+    std::string cmd = std::string("'") + self + "' --pristine";
+    for (int c : codes) cmd += fmt(" %d", c);
+    cmd += " 2>&1";
+    FILE* f = popen(cmd.c_str(), "r");
+    if (!f) { err = "popen failed"; return false; }
+    char line[1024];
+    std::string all;
+    while (fgets(line, sizeof(line), f)) {
+        all += line;
+        char h[64]; int kd = 0, n = 0;
+        if (sscanf(line, "%63s %d %d", h, &kd, &n) == 3) { PStep s; s.hash = h; s.kind = kd; s.n = n; out.push_back(s); }
+    }
+    int rc = pclose(f);
+    if (rc != 0 || out.size() != codes.size()) { err = fmt("pristine child: status %d, %zu of %zu steps; output: ", rc, out.size(), codes.size()) + all.substr(0, 600); return false; }
+    return true;
+}
+}   // namespace
+
+VK_SUB(fpr, "fresh_process");
+static void fpr_check(const Json& c, Out& o) {
+    std::vector<int> h = c.ints("h");
+    o.evals = long(h.size());
+    std::vector<PStep> got;
+    std::string err;
+    if (!run_pristine(h, got, err)) { o.fail("process:history-run-died", err + " history=" + show(h)); return; }
+    static std::map<int, std::string> single;   // (effective kind, n) -> hash of the call made first thing in a new process
+    std::set<int> distinct;
+    for (size_t i = 0; i < h.size(); ++i) {
+        if (got[i].hash == "SKIP") continue;
+        const int key = code(got[i].kind, got[i].n);
+        distinct.insert(key);
+        auto it = single.find(key);
+        if (it == single.end()) {
+            std::vector<PStep> one;
+            if (!run_pristine({key}, one, err)) { o.fail("process:single-call-died", err + fmt(" call=%s(%d)", kind_name(got[i].kind), got[i].n)); return; }
+            it = single.emplace(key, one[0].hash).first;
+        }
+        if (got[i].hash != it->second) {
+            const bool use = kind_of(h[i]) == K_USE_C || kind_of(h[i]) == K_USE_R || kind_of(h[i]) == K_USE_IC || kind_of(h[i]) == K_USE_IR;
+            o.fail(use ? "process:stored-plan-result" : "process:result-depends-on-history",
+                   fmt("step %zu %s(%d): result (%s) differs from the same call made as the first call of a new process (%s)", i, kind_name(kind_of(h[i])), got[i].n, got[i].hash.c_str(), it->second.c_str()) + " history=" + show(h));
+            return;
+        }
+    }
+    if (distinct.size() >= 2) { uint64_t k = 0xF9; for (int v : h) k = mix(k, uint64_t(v)); o.nontrivial(k); }
+    o.label(fmt("history-length:%zu", h.size()));
+    o.label(fmt("capacity:%d", verif::fft_cache_capacity()));
+}
+static void fpr_gen(Ctx& ctx) {
+#if defined(__has_feature)
+#if __has_feature(address_sanitizer)
+    const int total = ctx.by_tier(800, 4000);
+#else
+    const int total = ctx.by_tier(16000, 120000);
+#endif
+#else
+    const int total = ctx.by_tier(16000, 120000);
+#endif
+    ctx.rc("histories", total, [&]() {
+        std::vector<int> h;
+        const int len = pick(2, 6);
+        // a case usually stays inside one length family, so that related lengths (same residue class, same sub-plans) meet
+        const int family = pick(0, 5);
+        for (int i = 0; i < len; ++i) {
+            int kind = pick(0, int(K_NKINDS2) - 1);
+            int n;
+            switch (pick(0, 3) == 0 ? pick(0, 5) : family) {
+            case 0: n = pick(1, 40); break;
+            case 1: n = 2 * (2 * pick(1, 120) + 1); break;                                           // 4k+2
+            case 2: n = one_of<int>({3, 5, 7, 11, 13, 17, 23, 31, 41, 43, 47, 53, 97, 101, 127, 257, 509}); break;   // primes on both sides of the CZT switch
+            case 3: n = 1 << pick(1, 11); break;
+            case 4: n = one_of<int>({12, 15, 18, 20, 21, 24, 36, 45, 60, 63, 100, 105, 120, 243, 360, 625, 1000}); break;
+            default: n = 2 * one_of<int>({43, 47, 53, 97, 101, 127}) * pick(1, 3); break;          // composites with a CZT leaf
+            }
+            if (kind == K_USE_C || kind == K_USE_R || kind == K_USE_IC || kind == K_USE_IR) n = pick(0, 63);
+            else if (kind == K_IRFFT || kind == K_PLAN_IR) n += (n & 1);
+            if (kind == K_HILBERT) n = std::max(n, 3);
+            h.push_back(code(kind, n));
+        }
+        return Json::object().set("h", h);
+    });
+}
+
+int main(int argc, char** argv) {
+    if (argc >= 2 && std::string(argv[1]) == "--pristine") return pristine_main(argc, argv);
+    return vk::harness_main("C10", argc, argv);
+}
